@@ -4,7 +4,7 @@
    parameters of /repo's current source ([Extracted.prim], [InstPrim.prim_params_ok]).
    Floats are IEEE-754 bit patterns in Z (the harness prints the same patterns). *)
 From BigNum Require Import Base BaseLemmas ShiftCore AddSub Prim SpecPrim
-  PrimProofsCast PrimProofs PrimProofsFloat PrimProofsToFloat Extracted InstPrim.
+  PrimProofsCast PrimProofs PrimProofsFloat PrimProofsToFloat PrimProofsFromFloat Extracted InstPrim.
 Open Scope Z_scope.
 
 (** ** big -> primitive integer: Some x exactly when x fits, all twelve types, MIN edges included *)
@@ -86,6 +86,20 @@ Print Assumptions C08_to_f64_bigint.
 Theorem C08_to_f32_bigint : forall x, icanon x -> ito_f32 prim x = Ret (spec_ito_float 24 8 (ival x)).
 Proof. intros; apply ito_f32_spec; auto using prim_params_ok. Qed.
 Print Assumptions C08_to_f32_bigint.
+
+(** from_f64 / from_f32 (bit patterns): the float truncated toward zero; None for NaN and
+    +-inf; into BigUint also None when the truncated value is negative (-0.5 gives 0) *)
+Theorem C08_from_f64_spec : forall b, 0 <= b < 2 ^ 64 ->
+  ufrom_f64 b = Ret (option_map enc (spec_ufrom_float 53 11 b)) /\
+  ifrom_f64 b = Ret (option_map ienc (spec_ifrom_float 53 11 b)).
+Proof. intros; split; [apply ufrom_f64_spec|apply ifrom_f64_spec]; assumption. Qed.
+Print Assumptions C08_from_f64_spec.
+
+Theorem C08_from_f32_spec : forall g, 0 <= g < 2 ^ 32 ->
+  ufrom_f32 g = Ret (option_map enc (spec_ufrom_float 24 8 g)) /\
+  ifrom_f32 g = Ret (option_map ienc (spec_ifrom_float 24 8 g)).
+Proof. intros; split; [apply ufrom_f32_spec|apply ifrom_f32_spec]; assumption. Qed.
+Print Assumptions C08_from_f32_spec.
 
 (* Non-vacuity: a canonical three-digit value whose deciding sticky bit sits in the lowest
    digit (the D6 pattern); i128::MIN through the BigInt edge; a failing TryFrom. *)
